@@ -4,150 +4,418 @@ import (
 	"fmt"
 	"go/ast"
 	"go/token"
+	"path/filepath"
 	"strings"
 )
 
-// Quorum thresholds (C28, C31, C32): the integer formulas at the five sites that seal / commit / verify blocks.
+// Quorum thresholds (C28, C31, C32, C33, C34): the integer formulas at the sites that seal / commit / verify blocks.
+//
+// Sites are located by ROLE, not by the names of locals, and formulas are translated after inlining single-definition
+// locals (astnorm.go), so that hoisting `N-(N-1)/3` into `quorum`, naming `len(vbftPeerInfo)`, renaming loop variables or
+// extracting the counting loop into an unexported helper of the package leave the facts unchanged, while any change of a
+// formula, of an operator's strictness or of what is compared still changes (or breaks) them.
 func init() { Register("Quorum", genQuorum) }
 
-type qsite struct {
-	lean, file, fn string
-	pick           func(fset *token.FileSet, fn *ast.FuncDecl) (ast.Expr, error)
-	atoms          map[string]string
-	param          string
-	doc            string
+// atom functions: map the printed form of a Go sub-expression to the Lean variable of the fact.
+func atomsExact(m map[string]string) func(string) (string, bool) {
+	return func(s string) (string, bool) { v, ok := m[s]; return v, ok }
 }
 
-func nthAssign(name string, n int) func(*token.FileSet, *ast.FuncDecl) (ast.Expr, error) {
-	return func(fset *token.FileSet, fn *ast.FuncDecl) (ast.Expr, error) {
-		as := assignsTo(fn, name)
-		if len(as) <= n {
-			return nil, fmt.Errorf("assignment #%d to %q not found", n, name)
-		}
-		return as[n], nil
+// any len(...) of anything is the counted quantity k
+func atomLenIsK(s string) (string, bool) {
+	if strings.HasPrefix(s, "len(") && strings.HasSuffix(s, ")") && balanced(s[4:len(s)-1]) {
+		return "k", true
 	}
+	return "", false
 }
 
-// rhsOfCompare: the right operand of the first comparison `lhs OP rhs` whose printed left operand contains lhsHas.
-func rhsOfCompare(op token.Token, lhsHas string) func(*token.FileSet, *ast.FuncDecl) (ast.Expr, error) {
-	return func(fset *token.FileSet, fn *ast.FuncDecl) (ast.Expr, error) {
-		var found ast.Expr
-		ast.Inspect(fn.Body, func(n ast.Node) bool {
-			if be, ok := n.(*ast.BinaryExpr); ok && found == nil && be.Op == op && strings.Contains(exprString(fset, be.X), lhsHas) {
-				found = be.Y
+func balanced(s string) bool {
+	d := 0
+	for _, c := range s {
+		switch c {
+		case '(', '[':
+			d++
+		case ')', ']':
+			d--
+			if d < 0 {
+				return false
 			}
-			return true
-		})
-		if found == nil {
-			return nil, fmt.Errorf("comparison %s with left operand containing %q not found", op, lhsHas)
 		}
-		return found, nil
+	}
+	return d == 0
+}
+
+// the fault bound of a chain configuration: the local `c`, or any selector chain ending in `.C`
+func atomConfigC(s string) (string, bool) {
+	if s == "c" || s == "C" || strings.HasSuffix(s, ".C") {
+		return "c", true
+	}
+	return "", false
+}
+
+// intExprToLeanF is intExprToLean with an atom function.
+func intExprToLeanF(fset *token.FileSet, e ast.Expr, atom func(string) (string, bool)) (string, error) {
+	e = stripParens(e)
+	s := flat(fset, e)
+	if v, ok := atom(s); ok {
+		return v, nil
+	}
+	switch x := e.(type) {
+	case *ast.BasicLit:
+		if x.Kind == token.INT {
+			return x.Value, nil
+		}
+	case *ast.BinaryExpr:
+		l, err := intExprToLeanF(fset, x.X, atom)
+		if err != nil {
+			return "", err
+		}
+		r, err := intExprToLeanF(fset, x.Y, atom)
+		if err != nil {
+			return "", err
+		}
+		switch x.Op {
+		case token.ADD, token.SUB, token.MUL, token.QUO, token.REM:
+			return "(" + l + " " + x.Op.String() + " " + r + ")", nil
+		}
+	case *ast.CallExpr:
+		if id, ok := x.Fun.(*ast.Ident); ok && len(x.Args) == 1 {
+			switch id.Name {
+			case "int", "uint32", "uint64", "int64", "uint", "int32":
+				return intExprToLeanF(fset, x.Args[0], atom)
+			}
+		}
+	}
+	return "", fmt.Errorf("unsupported expression shape: %s", s)
+}
+
+// stripConv removes integer conversions and parentheses around an expression.
+func stripConv(e ast.Expr) ast.Expr {
+	for {
+		e = stripParens(e)
+		ce, ok := e.(*ast.CallExpr)
+		if !ok || len(ce.Args) != 1 {
+			return e
+		}
+		id, ok := ce.Fun.(*ast.Ident)
+		if !ok {
+			return e
+		}
+		switch id.Name {
+		case "int", "uint32", "uint64", "int64", "uint", "int32":
+			e = ce.Args[0]
+		default:
+			return e
+		}
 	}
 }
 
-func lhsOfCompare(op token.Token, lhsHas string) func(*token.FileSet, *ast.FuncDecl) (ast.Expr, error) {
-	return func(fset *token.FileSet, fn *ast.FuncDecl) (ast.Expr, error) {
-		var found ast.Expr
-		ast.Inspect(fn.Body, func(n ast.Node) bool {
-			if be, ok := n.(*ast.BinaryExpr); ok && found == nil && be.Op == op && strings.Contains(exprString(fset, be.X), lhsHas) {
-				found = be.X
+// paramReassign: the right-hand side of the only plain assignment `p = e` to parameter p in fn (nil if none / several).
+func paramReassign(fn *ast.FuncDecl, p string) ast.Expr {
+	var rhs []ast.Expr
+	ast.Inspect(fn.Body, func(n ast.Node) bool {
+		if as, ok := n.(*ast.AssignStmt); ok && as.Tok == token.ASSIGN && len(as.Lhs) == 1 && len(as.Rhs) == 1 {
+			if id, ok := as.Lhs[0].(*ast.Ident); ok && id.Name == p {
+				rhs = append(rhs, as.Rhs[0])
 			}
-			return true
-		})
-		if found == nil {
-			return nil, fmt.Errorf("comparison %s with left operand containing %q not found", op, lhsHas)
 		}
-		return found, nil
+		return true
+	})
+	if len(rhs) == 1 {
+		return rhs[0]
 	}
+	return nil
 }
 
-// second argument of the first call to callee
-func argOfCall(callee string, idx int) func(*token.FileSet, *ast.FuncDecl) (ast.Expr, error) {
-	return func(fset *token.FileSet, fn *ast.FuncDecl) (ast.Expr, error) {
-		var found ast.Expr
-		ast.Inspect(fn.Body, func(n ast.Node) bool {
-			if ce, ok := n.(*ast.CallExpr); ok && found == nil && exprString(fset, ce.Fun) == callee && len(ce.Args) > idx {
-				found = ce.Args[idx]
-			}
-			return true
-		})
-		if found == nil {
-			return nil, fmt.Errorf("call %s not found", callee)
-		}
-		return found, nil
+type qctx struct {
+	fset  *token.FileSet
+	funcs map[string]*ast.FuncDecl
+}
+
+func (q *qctx) fn(name string) (*ast.FuncDecl, error) {
+	fd := q.funcs[name]
+	if fd == nil {
+		return nil, fmt.Errorf("func %s not found", name)
 	}
+	return fd, nil
+}
+
+// mOfVerifyMulti: the threshold argument (index 2) of the idx-th call of signature.VerifyMultiSignature reachable from fn
+// (same-package helpers included), with the locals of the function that contains the call inlined.
+func (q *qctx) mOfVerifyMulti(fnName string, idx int) (ast.Expr, error) {
+	fn, err := q.fn(fnName)
+	if err != nil {
+		return nil, err
+	}
+	var found []ast.Expr
+	walkDeep(q.funcs, fn, 2, func(n ast.Node, in *ast.FuncDecl) bool {
+		if ce, ok := n.(*ast.CallExpr); ok && strings.HasSuffix(flat(q.fset, ce.Fun), "VerifyMultiSignature") && len(ce.Args) == 4 {
+			found = append(found, inlineLocals(ce.Args[2], singleDefs(in)))
+		}
+		return true
+	})
+	if len(found) <= idx {
+		return nil, fmt.Errorf("%s: call #%d of VerifyMultiSignature not found (found %d)", fnName, idx, len(found))
+	}
+	return found[idx], nil
+}
+
+type cmpSite struct {
+	x, y ast.Expr // operands after inlining, normalised so that the comparison reads `x OP y` with OP in {>, >=}
+	op   token.Token
+	in   *ast.FuncDecl
+}
+
+// comparisons lists the order comparisons reachable from fn, each normalised to `big OP small` with OP > or >=
+// (a < b becomes b > a), operands inlined; guards of if statements and switch cases only.
+func (q *qctx) comparisons(fn *ast.FuncDecl, skip map[string]bool) []cmpSite {
+	var out []cmpSite
+	// `if a <= b { continue }` (body only skips the rest of the iteration) says the same as `if a > b { rest }`:
+	// such conditions are recorded negated, so that both spellings give the same site
+	negate := map[ast.Expr]bool{}
+	walkDeep(q.funcs, fn, 2, func(n ast.Node, in *ast.FuncDecl) bool {
+		if skip[in.Name.Name] {
+			return false
+		}
+		if is, ok := n.(*ast.IfStmt); ok && is.Else == nil && len(is.Body.List) > 0 {
+			if br, ok := is.Body.List[len(is.Body.List)-1].(*ast.BranchStmt); ok && br.Tok == token.CONTINUE && len(is.Body.List) == 1 {
+				negate[stripParens(is.Cond)] = true
+			}
+		}
+		be, ok := n.(*ast.BinaryExpr)
+		if !ok {
+			return true
+		}
+		defs := singleDefs(in)
+		x, y := inlineLocals(be.X, defs), inlineLocals(be.Y, defs)
+		op := be.Op
+		if negate[be] {
+			switch op {
+			case token.GTR:
+				op = token.LEQ
+			case token.GEQ:
+				op = token.LSS
+			case token.LSS:
+				op = token.GEQ
+			case token.LEQ:
+				op = token.GTR
+			}
+		}
+		switch op {
+		case token.GTR, token.GEQ:
+			out = append(out, cmpSite{x, y, op, in})
+		case token.LSS:
+			out = append(out, cmpSite{y, x, token.GTR, in})
+		case token.LEQ:
+			out = append(out, cmpSite{y, x, token.GEQ, in})
+		}
+		return true
+	})
+	return out
 }
 
 func genQuorum(repo string) (string, error) {
-	sites := []qsite{
-		{"blockValidator_m", "core/validation/block_validator.go", "VerifyBlock", nthAssign("m", 0),
-			map[string]string{"len(header.Bookkeepers)": "n"}, "n", "signatures required by the block validator for n bookkeepers"},
-		{"commitConsensus_q", "consensus/vbft/node_utils.go", "getCommitConsensus", rhsOfCompare(token.GEQ, "len(signCount["),
-			map[string]string{"N": "N"}, "N", "getCommitConsensus: right-hand side of `len(signers)+1 >= q`"},
-		{"commitConsensus_lhs", "consensus/vbft/node_utils.go", "getCommitConsensus", lhsOfCompare(token.GEQ, "len(signCount["),
-			map[string]string{"len(signCount[c.BlockProposer])": "k"}, "k", "getCommitConsensus: left-hand side, k = distinct signers counted for the proposer"},
-		{"commitDone_C", "consensus/vbft/block_pool.go", "commitDone", nthAssign("C", 0),
-			map[string]string{"N": "N"}, "N", "commitDone: signature-quorum bound, consensus when count > C"},
-		{"addrFromBookkeepers_m", "core/types/address.go", "AddressFromBookkeepers", argOfCall("AddressFromMultiPubKeys", 1),
-			map[string]string{"len(bookkeepers)": "n"}, "n", "m of the m-of-n bookkeeper address"},
-		{"ledgerStore_vbft_m", "core/store/ledgerstore/ledger_store.go", "verifyHeader", nthAssign("m", 0),
-			map[string]string{"len(vbftPeerInfo)": "n"}, "n", "verifyHeader, VBFT branch: signatures verified for a peer set of size n"},
-		{"ledgerStore_vbft_members", "core/store/ledgerstore/ledger_store.go", "verifyHeader", rhsOfCompare(token.LSS, "len(usedPubKey)"),
-			map[string]string{"c": "c"}, "c", "verifyHeader, VBFT branch: distinct listed members required (`len(usedPubKey) < c+1` rejects)"},
-		{"ledgerStore_m", "core/store/ledgerstore/ledger_store.go", "verifyHeader", nthAssign("m", 1),
-			map[string]string{"len(header.Bookkeepers)": "n"}, "n", "verifyHeader, non-VBFT branch"},
-		{"crossChainMsg_m", "core/store/ledgerstore/ledger_store.go", "verifyCrossChainMsg", nthAssign("m", 0),
-			map[string]string{"len(bookkeepers)": "n"}, "n", "verifyCrossChainMsg, non-VBFT branch"},
-		{"endorseDone_min", "consensus/vbft/block_pool.go", "endorseDone", rhsOfCompare(token.LSS, "len(candidate.EndorseSigs)"),
-			map[string]string{"C": "C"}, "C", "endorseDone: minimum number of endorsers before counting"},
-	}
 	var sb strings.Builder
 	sb.WriteString("namespace OntVerif.Gen.Quorum\n\n")
-	for _, s := range sites {
-		fset, f, err := parseFile(repo, s.file)
+	emit := func(lean, where, doc, param string, e ast.Expr, fset *token.FileSet, atom func(string) (string, bool)) error {
+		l, err := intExprToLeanF(fset, e, atom)
 		if err != nil {
-			return "", err
+			return fmt.Errorf("%s: %v", where, err)
 		}
-		fn := findFunc(f, s.fn)
-		if fn == nil {
-			return "", fmt.Errorf("%s: func %s not found", s.file, s.fn)
-		}
-		e, err := s.pick(fset, fn)
-		if err != nil {
-			return "", fmt.Errorf("%s:%s: %v", s.file, s.fn, err)
-		}
-		lean, err := intExprToLean(fset, e, s.atoms)
-		if err != nil {
-			return "", fmt.Errorf("%s:%s: %v", s.file, s.fn, err)
-		}
-		fmt.Fprintf(&sb, "/-- %s:%s — %s. Go source: `%s` -/\ndef %s (%s : Nat) : Nat := %s\n\n", s.file, s.fn, s.doc, exprString(fset, e), s.lean, s.param, lean)
+		fmt.Fprintf(&sb, "/-- %s — %s. Go source (locals inlined): `%s` -/\ndef %s (%s : Nat) : Nat := %s\n\n", where, doc, flat(fset, stripParens(e)), lean, param, l)
+		return nil
 	}
-	// endorseDone / commitDone compare `count > C`: extract the operator to be sure it is strict
-	for _, c := range []struct{ lean, file, fn, lhsHas string }{
-		{"endorseDone_strict", "consensus/vbft/block_pool.go", "endorseDone", "endorseCount[esig.EndorsedProposer]"},
-		{"commitDone_strict", "consensus/vbft/block_pool.go", "commitDone", "endorseCnt[sig.EndorsedProposer]"},
-	} {
-		fset, f, err := parseFile(repo, c.file)
+	pkg := func(dir string) (*qctx, error) {
+		fset, funcs, err := pkgFuncs(repo, dir)
 		if err != nil {
-			return "", err
+			return nil, fmt.Errorf("%s: %v", dir, err)
 		}
-		fn := findFunc(f, c.fn)
-		if fn == nil {
-			return "", fmt.Errorf("%s: func %s not found", c.file, c.fn)
+		return &qctx{fset, funcs}, nil
+	}
+	nOf := func(names ...string) func(string) (string, bool) {
+		m := map[string]string{}
+		for _, n := range names {
+			m[n] = "n"
 		}
-		op := ""
-		ast.Inspect(fn.Body, func(n ast.Node) bool {
-			if be, ok := n.(*ast.BinaryExpr); ok && op == "" && exprString(fset, be.X) == c.lhsHas && exprString(fset, be.Y) == "C" {
-				op = be.Op.String()
+		return atomsExact(m)
+	}
+
+	// --- VerifyMultiSignature thresholds
+	val, err := pkg("core/validation")
+	if err != nil {
+		return "", err
+	}
+	e, err := val.mOfVerifyMulti("VerifyBlock", 0)
+	if err != nil {
+		return "", err
+	}
+	if err := emit("blockValidator_m", "core/validation:VerifyBlock", "signatures required by the block validator for n bookkeepers", "n", e, val.fset, nOf("len(header.Bookkeepers)", "len(block.Header.Bookkeepers)")); err != nil {
+		return "", err
+	}
+
+	vb, err := pkg("consensus/vbft")
+	if err != nil {
+		return "", err
+	}
+	// getCommitConsensus: the guard of the return of a proposer other than the math.MaxUint32 sentinel
+	gcc, err := vb.fn("getCommitConsensus")
+	if err != nil {
+		return "", err
+	}
+	var ccX, ccY ast.Expr
+	defs := singleDefs(gcc)
+	guardsOf(gcc.Body.List, nil, func(s ast.Stmt, gs []cond) {
+		rs, ok := s.(*ast.ReturnStmt)
+		if !ok || len(rs.Results) != 2 || strings.Contains(flat(vb.fset, rs.Results[0]), "MaxUint32") || len(gs) == 0 || ccX != nil {
+			return
+		}
+		g := gs[len(gs)-1]
+		be, ok := stripParens(g.e).(*ast.BinaryExpr)
+		if !ok || !g.pos {
+			return
+		}
+		x, y := inlineLocals(be.X, defs), inlineLocals(be.Y, defs)
+		switch be.Op {
+		case token.GEQ:
+			ccX, ccY = x, y
+		case token.LEQ:
+			ccX, ccY = y, x
+		}
+	})
+	if ccX == nil {
+		return "", fmt.Errorf("consensus/vbft:getCommitConsensus: no `count >= quorum` guard of a return of a proposer found")
+	}
+	if err := emit("commitConsensus_q", "consensus/vbft:getCommitConsensus", "right-hand side of the guard `k+1 >= q` under which a proposer is returned", "N", ccY, vb.fset, atomsExact(map[string]string{"N": "N"})); err != nil {
+		return "", err
+	}
+	if err := emit("commitConsensus_lhs", "consensus/vbft:getCommitConsensus", "left-hand side of that guard, k = distinct signers counted for the proposer", "k", ccX, vb.fset, atomLenIsK); err != nil {
+		return "", err
+	}
+
+	// commitDone (signature-count fallback): `cnt[proposer] > T` with T the signature quorum bound; T is either the
+	// reassigned parameter C or a local; located as the comparison whose big side is a map lookup
+	cd, err := vb.fn("commitDone")
+	if err != nil {
+		return "", err
+	}
+	var cdT ast.Expr
+	cdOp := token.ILLEGAL
+	for _, c := range vb.comparisons(cd, map[string]bool{"getCommitConsensus": true, "isEndorser": true}) {
+		if _, ok := stripParens(c.x).(*ast.IndexExpr); !ok {
+			continue
+		}
+		t := c.y
+		if id, ok := stripParens(t).(*ast.Ident); ok {
+			if r := paramReassign(c.in, id.Name); r != nil {
+				t = inlineLocals(r, singleDefs(c.in))
 			}
-			return true
-		})
-		if op != ">" && op != ">=" {
-			return "", fmt.Errorf("%s:%s: comparison `%s OP C` not found", c.file, c.fn, c.lhsHas)
 		}
-		fmt.Fprintf(&sb, "/-- %s:%s — `%s %s C` declares consensus; as a threshold on the count -/\ndef %s (C : Nat) : Nat := %s\n\n",
-			c.file, c.fn, c.lhsHas, op, c.lean, map[string]string{">": "C + 1", ">=": "C"}[op])
+		cdT, cdOp = t, c.op
+		break
 	}
+	if cdT == nil {
+		return "", fmt.Errorf("consensus/vbft:commitDone: no `count[proposer] > bound` comparison found")
+	}
+	if err := emit("commitDone_C", "consensus/vbft:commitDone", "signature-quorum bound T, consensus when count OP T", "N", cdT, vb.fset, atomsExact(map[string]string{"N": "N"})); err != nil {
+		return "", err
+	}
+
+	ty, err := pkg("core/types")
+	if err != nil {
+		return "", err
+	}
+	afb, err := ty.fn("AddressFromBookkeepers")
+	if err != nil {
+		return "", err
+	}
+	var afbM ast.Expr
+	ast.Inspect(afb.Body, func(n ast.Node) bool {
+		if ce, ok := n.(*ast.CallExpr); ok && afbM == nil && strings.HasSuffix(flat(ty.fset, ce.Fun), "AddressFromMultiPubKeys") && len(ce.Args) == 2 {
+			afbM = inlineLocals(ce.Args[1], singleDefs(afb))
+		}
+		return true
+	})
+	if afbM == nil {
+		return "", fmt.Errorf("core/types:AddressFromBookkeepers: call of AddressFromMultiPubKeys not found")
+	}
+	if err := emit("addrFromBookkeepers_m", "core/types:AddressFromBookkeepers", "m of the m-of-n bookkeeper address", "n", afbM, ty.fset, nOf("len(bookkeepers)")); err != nil {
+		return "", err
+	}
+
+	ls, err := pkg(filepath.Join("core", "store", "ledgerstore"))
+	if err != nil {
+		return "", err
+	}
+	e, err = ls.mOfVerifyMulti("verifyHeader", 0)
+	if err != nil {
+		return "", err
+	}
+	if err := emit("ledgerStore_vbft_m", "core/store/ledgerstore:verifyHeader", "VBFT branch: signatures verified for a peer set of size n", "n", e, ls.fset, nOf("len(vbftPeerInfo)")); err != nil {
+		return "", err
+	}
+	// distinct listed members: the comparison `len(<set of distinct members>) < bound` with bound built from the config's C
+	vh, _ := ls.fn("verifyHeader")
+	var memB ast.Expr
+	for _, c := range ls.comparisons(vh, nil) {
+		// normalised: bound > len(set)  (from len(set) < bound)
+		if c.op != token.GTR {
+			continue
+		}
+		if ce, ok := stripConv(c.y).(*ast.CallExpr); ok && flat(ls.fset, ce.Fun) == "len" {
+			if l, err := intExprToLeanF(ls.fset, c.x, atomConfigC); err == nil && strings.Contains(l, "c") {
+				memB = c.x
+				break
+			}
+		}
+	}
+	if memB == nil {
+		return "", fmt.Errorf("core/store/ledgerstore:verifyHeader: no `len(distinct members) < bound(C)` comparison found")
+	}
+	if err := emit("ledgerStore_vbft_members", "core/store/ledgerstore:verifyHeader", "VBFT branch: distinct listed members required (`len(members) < bound` rejects)", "c", memB, ls.fset, atomConfigC); err != nil {
+		return "", err
+	}
+	e, err = ls.mOfVerifyMulti("verifyHeader", 1)
+	if err != nil {
+		return "", err
+	}
+	if err := emit("ledgerStore_m", "core/store/ledgerstore:verifyHeader", "non-VBFT branch", "n", e, ls.fset, nOf("len(header.Bookkeepers)")); err != nil {
+		return "", err
+	}
+	e, err = ls.mOfVerifyMulti("verifyCrossChainMsg", 1)
+	if err != nil {
+		return "", err
+	}
+	if err := emit("crossChainMsg_m", "core/store/ledgerstore:verifyCrossChainMsg", "non-VBFT branch", "n", e, ls.fset, nOf("len(bookkeepers)")); err != nil {
+		return "", err
+	}
+
+	// endorseDone: minimum number of endorsers (`len(EndorseSigs) < bound` gives up) and the strict count comparison
+	ed, err := vb.fn("endorseDone")
+	if err != nil {
+		return "", err
+	}
+	var edMin ast.Expr
+	edOp := token.ILLEGAL
+	for _, c := range vb.comparisons(ed, map[string]bool{"isEndorser": true}) {
+		if ce, ok := stripConv(c.y).(*ast.CallExpr); ok && flat(vb.fset, ce.Fun) == "len" && c.op == token.GTR && edMin == nil {
+			edMin = c.x // bound > len(..)
+		}
+		if _, ok := stripParens(c.x).(*ast.IndexExpr); ok && edOp == token.ILLEGAL {
+			if flat(vb.fset, stripConv(c.y)) != "C" {
+				return "", fmt.Errorf("consensus/vbft:endorseDone: count compared with `%s`, expected C", flat(vb.fset, c.y))
+			}
+			edOp = c.op
+		}
+	}
+	if edMin == nil || edOp == token.ILLEGAL {
+		return "", fmt.Errorf("consensus/vbft:endorseDone: comparisons `len(EndorseSigs) < bound` / `count[proposer] > C` not found")
+	}
+	if err := emit("endorseDone_min", "consensus/vbft:endorseDone", "minimum number of endorsers before counting", "C", edMin, vb.fset, atomsExact(map[string]string{"C": "C"})); err != nil {
+		return "", err
+	}
+	strict := map[token.Token]string{token.GTR: "C + 1", token.GEQ: "C"}
+	fmt.Fprintf(&sb, "/-- consensus/vbft:endorseDone — `count[proposer] %s C` declares consensus; as a threshold on the count -/\ndef endorseDone_strict (C : Nat) : Nat := %s\n\n", edOp, strict[edOp])
+	fmt.Fprintf(&sb, "/-- consensus/vbft:commitDone — `count[proposer] %s T` declares consensus; as a threshold on the count -/\ndef commitDone_strict (C : Nat) : Nat := %s\n\n", cdOp, strict[cdOp])
 	sb.WriteString("end OntVerif.Gen.Quorum\n")
 	return sb.String(), nil
 }
